@@ -17,6 +17,20 @@ Nodes are lists:
     ['comment', body]
     ['sub', key, route]                  call of sub-template subs[key]; route var|call
 
+Data-dependent nodes read a variable of the current *environment* (the namespace of this
+render, or the row of the innermost enclosing ['vin'] loop; a row that does not define a
+variable lets the lookup fall through to the enclosing scope):
+
+    ['vraise', mode, var, body]          dtml-raise of the class named by cv_<var> (expr|qexpr)
+                                         or cls(cn_<var>) (mode cls); undefined -> expr fails
+    ['vreturn', mode, var]               dtml-return of dv_<var>  (an RV key)
+    ['vboom', id, var]                   raises the class named by bx_<var> ('' = no raise)
+    ['vif', var, body, else|None]        dtml-if tf_<var>
+    ['vin', var, body]                   <dtml-in rows_<var> mapping>: one activation per row dict
+
+A case may carry 'renders': [env, ...]: the template is compiled ONCE and rendered once per
+environment; every render is compared with the model for that environment.
+
 The model below is written from the property statement and the Try docstring ("functions
 quite like Python's try command"): it maps every node to the Python statement of the same
 name, so Python itself supplies the reference control flow.  It never looks at engine code.
@@ -113,6 +127,37 @@ def _src(n, style):
         if style == 'name':
             return '<dtml-var X_%s>' % n[1]
         return '<dtml-var "boom(\'%s\', \'%s\', \'%s\', %d, _)">' % (n[1], n[2], n[3], n[4])
+    if k == 'vraise':
+        mode, var = n[1], n[2]
+        if mode == 'expr':
+            head = '<dtml-raise expr="cv_%s">' % var
+        elif mode == 'qexpr':
+            head = '<dtml-raise "cv_%s">' % var
+        elif mode == 'cls':
+            head = '<dtml-raise expr="cls(cn_%s)">' % var
+        else:
+            raise ValueError(mode)
+        return head + to_src(n[3]) + '</dtml-raise>'
+    if k == 'vreturn':
+        mode, var = n[1], n[2]
+        if mode == 'name':
+            return '<dtml-return dv_%s>' % var
+        if mode == 'expr':
+            return '<dtml-return expr="dv_%s">' % var
+        if mode == 'qexpr':
+            return '<dtml-return "dv_%s">' % var
+        raise ValueError(mode)
+    if k == 'vboom':
+        if style == 'name':
+            return '<dtml-var X_%s>' % n[1]
+        return '<dtml-var "vboom(\'%s\', \'%s\', _)">' % (n[1], n[2])
+    if k == 'vif':
+        r = '<dtml-if tf_%s>' % n[1] + to_src(n[2])
+        if n[3] is not None:
+            r += '<dtml-else>' + to_src(n[3])
+        return r + '</dtml-if>'
+    if k == 'vin':
+        return '<dtml-in rows_%s mapping>' % n[1] + to_src(n[2]) + '</dtml-in>'
     if k == 'raise':
         mode, name, body = n[1], n[2], n[3]
         if mode == 'name':
@@ -180,8 +225,15 @@ def _src(n, style):
 def children(n):
     """(role, block) pairs of the sub-blocks of a node."""
     k = n[0]
-    if k == 'raise':
+    if k in ('raise', 'vraise'):
         return [('raise body', n[3])]
+    if k == 'vif':
+        out = [('if', n[2])]
+        if n[3] is not None:
+            out.append(('if else', n[3]))
+        return out
+    if k == 'vin':
+        return [('in', n[2])]
     if k == 'try':
         out = [('try body', n[1])]
         out += [('except', b) for _, b in n[2]]
@@ -219,7 +271,7 @@ def has_return_in_raise_body(case):
     """Classifier input: is a dtml-return lexically inside a dtml-raise body (same template)?"""
     for tree in [case['tree']] + list(case.get('subs', {}).values()):
         for n, inside in walk(tree):
-            if n[0] == 'return' and 'raise body' in inside and 'comment' not in inside:
+            if n[0] in ('return', 'vreturn') and 'raise body' in inside and 'comment' not in inside:
                 return True
     return False
 
@@ -228,7 +280,7 @@ def has_fallible_raise_body(case):
     """Does some raise body contain anything that can raise (statement silent on that)?"""
     for tree in [case['tree']] + list(case.get('subs', {}).values()):
         for n, inside in walk(tree):
-            if 'raise body' in inside and n[0] in ('raise', 'boom', 'sub'):
+            if 'raise body' in inside and n[0] in ('raise', 'boom', 'sub', 'vraise', 'vboom'):
                 return True
     return False
 
@@ -276,8 +328,10 @@ class Model:
 
     MASK_MSG = 'Invalid Error Value'
 
-    def __init__(self, case, pol_exc='propagate', pol_ret='propagate'):
+    def __init__(self, case, pol_exc='propagate', pol_ret='propagate', env=None):
         self.case = case
+        self.scopes = [env or {}]
+        self.varied = {}        # id(node) -> what this tag object did in each activation
         self.subs = case.get('subs', {})
         self.pol_exc = pol_exc
         self.pol_ret = pol_ret
@@ -329,6 +383,16 @@ class Model:
     def cur(self):
         return list(self.bind[-1]) if self.bind else None
 
+    def lookup(self, key):
+        """Innermost scope defining the variable (None = not defined there)."""
+        for sc in reversed(self.scopes):
+            if sc.get(key) is not None:
+                return sc[key]
+        return None
+
+    def did(self, n, what):
+        self.varied.setdefault(id(n), []).append(what)
+
     # -- nodes
     def node(self, n, tok):
         k = n[0]
@@ -346,7 +410,39 @@ class Model:
                 raise MExc(resolve(n[2]), n[3])
             return '{%s}' % n[1]
         if k == 'raise':
-            return self.do_raise(n)
+            return self.do_raise(n, n[1], n[2])
+        if k == 'vraise':
+            self.stat('raise of a class computed from per-activation data')
+            return self.do_raise(n, n[1], self.lookup('cv_' + n[2]))
+        if k == 'vreturn':
+            key = self.lookup('dv_' + n[2])
+            self.note_inside('return')
+            self.stat('return value ' + key)
+            self.stat('return of per-activation data')
+            self.did(n, key)
+            raise MRet(key)
+        if k == 'vboom':
+            name = self.lookup('bx_' + n[2])
+            self.trace.append(['b', n[1], self.cur(), tok])
+            self.did(n, name or '')
+            if name:
+                self.note_inside('raise')
+                self.stat('raise by namespace callable')
+                raise MExc(resolve(name), 'm-' + n[1])
+            return '{%s}' % n[1]
+        if k == 'vif':
+            if self.lookup('tf_' + n[1]):
+                return self.block(n[2], 'if')
+            return self.block(n[3], 'if else') if n[3] is not None else ''
+        if k == 'vin':
+            out = []
+            for row in (self.lookup('rows_' + n[1]) or []):
+                self.scopes.append(row)
+                try:
+                    out.append(self.block(n[2], 'in'))
+                finally:
+                    self.scopes.pop()
+            return ''.join(out)
         if k == 'return':
             self.note_inside('return')
             self.stat('return value ' + n[2])
@@ -374,11 +470,11 @@ class Model:
             return self.do_sub(n)
         raise ValueError('unknown node %r' % (n,))
 
-    def do_raise(self, n):
-        mode, name = n[1], n[2]
-        cls = resolve(name)
+    def do_raise(self, n, mode, name):
+        cls = resolve(name) if name else None
         if cls is None:
             cls = Unknown
+        self.did(n, cls.__name__)
         try:
             msg = self.block(n[3], 'raise body')
         except MExc:
@@ -415,8 +511,10 @@ class Model:
                     break
             if chosen is None:
                 self.stat('try: no handler matches, propagates')
+                self.did(n, 'unhandled')
                 raise
             names = handlers[chosen][0]
+            self.did(n, 'handler %d' % chosen)
             if e.cls.__name__ in names:
                 self.stat('try: handler chosen by exact name')
             elif '' in names and not handler_matches([x for x in names if x], e.cls):
@@ -440,6 +538,7 @@ class Model:
             self.stat('try: return passes the handlers')
             raise
         else:
+            self.did(n, 'no exception')
             if els is None:
                 self.stat('try: no exception, no else')
                 return out
@@ -888,3 +987,144 @@ class RandomTrees:
         if r < 0.97:
             return ['comment', self.block(depth - 1, tdepth, n=1)]
         return self.leaf()
+
+
+# ---------------------------------------------------------------- data-dependent workloads
+# One compiled template, many activations of the same tag objects with different data:
+# several renders with different environments, and dtml-in rows with different data.
+VARS = ['a', 'b', 'c']
+VCLS = ['E1', 'E2', 'E3', 'Other', 'E12', 'KeyError', 'IndexError', 'ValueError', 'NotFound']
+
+
+def try_around(ids, body, hl, with_else, tag=''):
+    handlers = [[[nm], [['text', 'H%d%s:' % (hi, tag)], ['probe', ids('h')]]] for hi, nm in enumerate(hl)]
+    els = [['text', 'E:'], ['probe', ids('e')]] if with_else else None
+    return ['try', [['text', 'B:'], ['probe', ids('b')]] + body + [['probe', ids('b')]], handlers, els]
+
+
+def grid_rerender_cases():
+    """Every handler list around a dtml-raise of a COMPUTED class; the one compiled template is
+    (a) rendered 6 times with a different class each time (the first class rotates with the
+    case index), (b) put in a loop whose rows carry the class, rendered with two row orders."""
+    modes = ['expr', 'qexpr', 'cls']
+    seq = ['E1', 'E3', 'Other', 'E2', None, 'E12']
+    for i, hl in enumerate(handler_lists()):
+        mode = modes[i % 3]
+        ids = Ids()
+        vr = ['vraise', mode, 'a', [['text', 'm-'], ['probe', ids('r')], ['text', 'v']]]
+        tree = [['probe', ids()], try_around(ids, [vr], hl, i % 2), ['probe', ids()]]
+        rot = seq[i % 6:] + seq[:i % 6]
+        yield {'part': 'rerender-grid', 'tree': tree, 'subs': {},
+               'renders': [{'cv_a': c} for c in rot]}
+        ids = Ids()
+        vr = ['vraise', modes[(i + 1) % 3], 'a', [['text', 'm-loop']]]
+        tree = [['probe', ids()],
+                ['vin', 'a', [['probe', ids()], try_around(ids, [vr], hl, (i + 1) % 2), ['text', ','],
+                              ['probe', ids()]]],
+                ['probe', ids()]]
+        rows1 = [{'cv_a': c} for c in rot]
+        rows2 = [{'cv_a': c} for c in reversed(rot)]
+        yield {'part': 'rerender-grid', 'tree': tree, 'subs': {},
+               'renders': [{'rows_a': rows1}, {'rows_a': rows2}, {'rows_a': rows1[2:4]}]}
+
+
+def grid_loop_cases():
+    """A loop whose per-iteration data decide what happens inside an enclosing try per iteration
+    (whether to raise, which class, whether and what to return); one compiled template per
+    (action, form), rendered with every row sequence of length 3 over the data choices."""
+    import itertools
+    actions = {
+        'vboom': (lambda ids: [['vboom', ids('x'), 'a']],
+                  [{'bx_a': ''}, {'bx_a': 'E1'}, {'bx_a': 'Other'}, {'bx_a': 'E3'}]),
+        'vraise': (lambda ids: [['vraise', 'expr', 'a', [['text', 'm-it']]]],
+                   [{'cv_a': 'E1'}, {'cv_a': 'E3'}, {'cv_a': 'Other'}, {'cv_a': None}]),
+        'vif-raise': (lambda ids: [['vif', 'a', [['vraise', 'cls', 'b', [['text', 'm-if']]]], [['probe', ids()]]]],
+                      [{'tf_a': 0, 'cv_b': 'E2'}, {'tf_a': 1, 'cv_b': 'E2'}, {'tf_a': 1, 'cv_b': 'Other'},
+                       {'tf_a': 1, 'cv_b': 'KeyError'}]),
+        'vif-return': (lambda ids: [['vif', 'a', [['vreturn', 'name', 'b']], None]],
+                       [{'tf_a': 0, 'dv_b': 's'}, {'tf_a': 1, 'dv_b': 'i'}, {'tf_a': 1, 'dv_b': 'o'},
+                        {'tf_a': 0, 'dv_b': 'n'}]),
+        'handler-return': (lambda ids: [['vboom', ids('x'), 'a']],
+                           [{'bx_a': '', 'tf_c': 0, 'dv_b': 's'}, {'bx_a': 'E1', 'tf_c': 0, 'dv_b': 'l'},
+                            {'bx_a': 'E1', 'tf_c': 1, 'dv_b': 'z'}, {'bx_a': 'Other', 'tf_c': 1, 'dv_b': 'e'}]),
+    }
+    for aname, (mk, choices) in actions.items():
+        for form in ('except', 'finally', 'except-in-finally'):
+            ids = Ids()
+            act = mk(ids)
+            if form == 'except':
+                hblock = [['text', 'H2:'], ['probe', ids('h')]]
+                if aname == 'handler-return':
+                    hblock.append(['vif', 'c', [['vreturn', 'expr', 'b']], None])
+                inner = ['try', [['probe', ids('b')]] + act + [['probe', ids('b')]],
+                         [[['E2'], hblock], [['Other', 'LookupError'], [['text', 'HO:'], ['probe', ids('h')]]]],
+                         [['text', 'E:'], ['probe', ids('e')]]]
+            elif form == 'finally':
+                inner = ['try', [['tryfin', [['probe', ids('b')]] + act + [['probe', ids('b')]],
+                                 [['text', 'F:'], ['probe', ids('f')]]]],
+                         [[[''], [['text', 'HB:'], ['probe', ids('h')]]]], None]
+            else:
+                inner = ['tryfin',
+                         [['try', [['probe', ids('b')]] + act + [['probe', ids('b')]],
+                           [[['E1'], [['text', 'H1:'], ['probe', ids('h')]]]], None]],
+                         [['text', 'F:'], ['probe', ids('f')]]]
+                inner = ['try', [inner], [[['Exception'], [['text', 'HX:'], ['probe', ids('h')]]]], None]
+            tree = [['probe', ids()], ['vin', 'a', [['probe', ids()], inner, ['text', ','], ['probe', ids()]]],
+                    ['text', '.'], ['probe', ids()]]
+            renders = [{'rows_a': [dict(r) for r in rows]} for rows in itertools.product(choices, repeat=3)]
+            yield {'part': 'loop-grid', 'tree': tree, 'subs': {}, 'renders': renders}
+
+
+def rand_env(rng, rows=True):
+    env = {}
+    for v in VARS:
+        env['cv_' + v] = rng.choice(VCLS + [None]) if rows else rng.choice(VCLS + [None, None, None])
+        env['dv_' + v] = rng.choice(RET_KEYS)
+        env['bx_' + v] = rng.choice(['', '', '', 'E1', 'E2', 'Other', 'KeyError', 'E12'])
+        env['tf_' + v] = rng.choice([0, 1])
+        if rows:
+            env['rows_' + v] = [rand_env(rng, rows=False) for _ in range(rng.choice([0, 1, 2, 3, 3]))]
+    if not rows:
+        # a row defines only some variables; the others are found in the enclosing scope
+        for k in list(env):
+            if rng.random() < 0.3:
+                del env[k]
+    return env
+
+
+class RandomVarTrees(RandomTrees):
+    """Random trees whose raises / returns / conditions / loops read per-activation data; each
+    compiled template is rendered with several random environments."""
+
+    def case(self, nrenders=3):
+        c = RandomTrees.case(self)
+        c['part'] = 'random-vars'
+        c['renders'] = [rand_env(self.rng) for _ in range(nrenders)]
+        return c
+
+    def leaf(self):
+        rng = self.rng
+        r = rng.random()
+        if r < 0.25:
+            return ['vboom', self.ids('x'), rng.choice(VARS)]
+        if r < 0.45:
+            body = [['text', 'm-' + self.ids('m')]]
+            if rng.random() < 0.3:
+                body.append(['probe', self.ids('r')])
+            return ['vraise', rng.choice(['expr', 'qexpr', 'cls']), rng.choice(VARS), body]
+        if r < 0.55:
+            return ['vreturn', rng.choice(['name', 'expr', 'qexpr']), rng.choice(VARS)]
+        return RandomTrees.leaf(self)
+
+    def node(self, depth, tdepth, top=False):
+        rng = self.rng
+        if depth > 0 and self.size <= 40:
+            r = rng.random()
+            if r < 0.14:
+                self.size += 1
+                return ['vin', rng.choice(VARS), self.block(depth - 1, tdepth)]
+            if r < 0.24:
+                self.size += 1
+                return ['vif', rng.choice(VARS), self.block(depth - 1, tdepth),
+                        self.block(depth - 1, tdepth, n=1) if rng.random() < 0.5 else None]
+        return RandomTrees.node(self, depth, tdepth, top)
